@@ -603,12 +603,16 @@ def pickle_part(ctx, res):
                 res.fail("executor-message-roundtrip", f"des_message(ser_message({m!r})) gave {back!r}", {"part": "pickle", "class": name, "repr": repr(m)})
             res.nontrivial_keys.add(("pk", repr(m)[:200]))
     for i in range(ctx.n(60, 1500)):
-        r = report.ControllerReport(rs(), rng.choice([None, "0.00", "99.99", "Shutdown"]), rng.choice([0, 2**63, rng.randrange(2**40)]), [(did(), by()) for _ in range(rng.randrange(3))])
+        # every field at its edges: an optional string is None, empty, blank, or spells "None"; empty job id; empty,
+        # one-byte and magic-prefixed result payloads; dataset ids with dots and non-ASCII; timestamps at 0 and 64-bit edges
+        r = report.ControllerReport(rng.choice([rs(), rs(), ""]), rng.choice([None, "", " ", "None", "0.00", "99.99", "Shutdown", "é"]),
+                                    rng.choice([0, 1, 2**63 - 1, 2**63, 2**64 - 1, rng.randrange(2**40)]),
+                                    [(rng.choice([did(), DatasetId("a.b", "c.d"), DatasetId("", "")]), rng.choice([by(), b"", b"\x00", rng.choice(PAYLOAD_MAGIC) + by()])) for _ in range(rng.randrange(4))])
         res.evaluations += 1
         res.count("pickle:ControllerReport")
         try:
             back = report.deserialize(report.serialize(r))
-            ok = back == r
+            ok = back == r and plain(back) == plain(r)
         except Exception as e:
             ok, back = False, repr(e)
         if not ok:
